@@ -494,6 +494,88 @@ let ropt_check line =
   let (c, i) = split_sb line in
   verdict (ropt_gen true c = i) ("expected:" ^ String.concat "," (String.split_on_char ' ' (ropt_gen true c)))
 
+(* ---- rcfg: the runner's scalar settings and filter set, fresh process.
+   "c #A tokens #P calls #Q calls #F ops #O origins [#X ?paths #T rows]" -> "action=.. .. ignored=.. #M bits" | "rejected" ---- *)
+let sorting_of = function "kind" -> SKind | "name" -> SName | "location" -> SLocation | s -> failwith ("bad sort " ^ s)
+let show_sorting = function SKind -> "kind" | SName -> "name" | SLocation -> "location"
+let timer_of = function "os" -> TOs | "tsc" -> TTsc | s -> failwith ("bad timer " ^ s)
+let color_of = function "auto" -> CAuto | "always" -> CAlways | "never" -> CNever | s -> failwith ("bad color " ^ s)
+let binary_of = function "binary" -> true | "decimal" -> false | s -> failwith ("bad bytes format " ^ s)
+
+let kvs toks = List.map (fun t -> match String.index_opt t '=' with
+    | Some i -> (String.sub t 0 i, String.sub t (i + 1) (String.length t - i - 1))
+    | None -> (t, "")) toks
+
+let parse_cli toks : cli =
+  let kv = kvs toks in
+  let has k = List.mem_assoc k kv and get f k = Option.map f (List.assoc_opt k kv) in
+  { a_bench = has "bench"; a_test = has "test"; a_list = has "list";
+    a_format_terse = get (fun v -> v = "terse") "format"; a_nextest = has "nextest";
+    a_sort = get sorting_of "sort"; a_sortr = get sorting_of "sortr";
+    a_sortr_last = (match List.assoc_opt "order" kv with Some "rs" -> false | _ -> true);
+    e_sort = get sorting_of "esort"; e_sortr = get sorting_of "esortr";
+    a_timer = get timer_of "timer"; e_timer = get timer_of "etimer";
+    a_color = get color_of "color";
+    a_bytes_binary = get binary_of "bytes"; e_bytes_binary = get binary_of "ebytes";
+    a_ignored = has "ignored"; a_include_ignored = has "include-ignored" }
+
+let parse_calls toks : builder_call list =
+  List.map (fun (k, v) -> match k with
+      | "color" -> BColor (color_of v)
+      | "bytes" -> BBytesFormat (binary_of v)
+      | "run_ignored" -> BRunIgnored
+      | "run_only_ignored" -> BRunOnlyIgnored
+      | _ -> failwith ("bad builder call " ^ k)) (kvs toks)
+
+let show_config (c : config) =
+  Printf.sprintf "action=%s timer=%s sort=%s reverse=%d color=%s bytes=%s ignored=%s"
+    (match c.cfg_action with ABench -> "bench" | ATest -> "test" | AList -> "list" | AListTerse -> "list-terse")
+    (match c.cfg_timer with TOs -> "os" | TTsc -> "tsc") (show_sorting c.cfg_sort) (if c.cfg_reverse then 1 else 0)
+    (match c.cfg_color with CAuto -> "auto" | CAlways -> "always" | CNever -> "never")
+    (if c.cfg_bytes_binary then "binary" else "decimal")
+    (match c.cfg_ignored with RunNo -> "no" | RunYes -> "yes" | RunOnly -> "only")
+
+(* the ops of section F split by origin: builder skips before parsing (p), command line (c), builder skips after (q) *)
+let rcfg_filters secs =
+  let ops = List.map parse_op (nonempty (section secs "F")) in
+  let origins = (match nonempty (section secs "O") with [o] when o <> "-" -> o | _ -> "") in
+  if String.length origins <> List.length ops then failwith "origins";
+  let tagged = List.mapi (fun i op -> (origins.[i], op)) ops in
+  let of_origin o = List.filter_map (fun (o', op) -> if o' = o then Some op else None) tagged in
+  let cli_ops_ = of_origin 'c' in
+  let is_exact = List.exists (function (FExact _, _) -> true | _ -> false) cli_ops_ in
+  let text = function (FExact t, _) -> t | (FRegex t, _) -> t in
+  (ops, List.map fst (of_origin 'p'), is_exact,
+   List.map text (List.filter snd cli_ops_), List.map text (List.filter (fun o -> not (snd o)) cli_ops_),
+   List.map fst (of_origin 'q'))
+
+let rcfg_gen use_spec line =
+  let secs = sections line in
+  let a = parse_cli (nonempty (section secs "A")) in
+  let before = parse_calls (nonempty (section secs "P")) and after = parse_calls (nonempty (section secs "Q")) in
+  match (if use_spec then config_spec else runner_config_resolve) before a after with
+  | None -> "rejected"
+  | Some c ->
+    let (ops, sb, ex, pos, sk, sa) = rcfg_filters secs in
+    let paths = List.map tail1 (nonempty (section secs "X")) in
+    let m = make_oracle ops paths (nonempty (section secs "T")) in
+    let bits = List.map (fun p ->
+        if use_spec then runner_filter_spec m sb ex pos sk sa (str p)
+        else res_bool (runner_filter_is_match m sb ex pos sk sa (str p))) paths in
+    show_config c ^ " #M " ^ bits_s bits
+
+let rcfg_check line =
+  let (c, i) = split_sb line in
+  let cut s = (match String.index_opt s '#' with
+      | Some _ -> (let re = " #X" in
+                   let rec find k = if k + 3 > String.length s then String.length s else if String.sub s k 3 = re then k else find (k + 1) in
+                   String.sub s 0 (find 0))
+      | None -> s) in
+  let isecs = sections i in
+  let minput = c ^ " #X " ^ String.concat " " (section isecs "X") ^ " #T " ^ String.concat " " (section isecs "T") in
+  let want = rcfg_gen true minput in
+  verdict (want = cut i) ("expected:" ^ String.concat "," (String.split_on_char ' ' want))
+
 let dispatch mode line =
   match mode with
   | "ismatch" -> ismatch line
@@ -512,6 +594,8 @@ let dispatch mode line =
   | "psec.sb" -> psec_check line
   | "ropt" -> ropt_gen false line
   | "ropt.sb" -> ropt_check line
+  | "rcfg" -> rcfg_gen false line
+  | "rcfg.sb" -> rcfg_check line
   | "tim" -> tim_gen false line
   | "tim.sb" -> tim_check line
   | _ -> failwith ("unknown mode " ^ mode)
